@@ -13,33 +13,44 @@ GEN = ["Guards"]
 PROPS = ["ScoresVerif/Props/C20.lean"]
 DRIVER_DEPS = ["ScoresVerif.Driver.C20Spec", "ScoresVerif.Driver.C20"]
 LEVEL = "proof"
-TRUSTED = ["tools/gen/Guards.py table: which `if …: raise` of which function is which guard, the substitutions of "
+TRUSTED = ["tools/c20_audit.py classification of the guard sites that are NOT translated (probe-only / outside the property)",
+           "tools/gen/Guards.py table: which `if …: raise` of which function is which guard, the substitutions of "
            "sub-expressions by scalar parameters (fcst.max() -> fcst_max, len(diffs) -> n, …) and the stripping of "
            ".any()/.all() (the function raises iff the pointwise guard fires for some element)",
            "the probe fixtures (otherwise valid arguments of each public function) in tools/sv/props/c20.py"]
 ASSUMPTIONS = ["NaN-valued parameters are outside the property's quantifier (recorded in Props/C20.lean §4 and probed for "
                "information only)",
-               "guards on dimension names, dtypes, shapes and enumerated strings other than FIRM's threshold_assignment "
-               "are not part of this property's list and are not modelled"]
+               "guards on dimension names, coordinates, dtypes, shapes, option combinations and data conditions (74 of the 153 "
+               "`if …: raise` sites of the anchored files, listed one by one in notes/C20.md by tools/c20_audit.py) are not "
+               "part of this property's list and are not modelled"]
 MANIFEST = dict(
     level="proof",
-    text="46 parameter guards are regenerated on every run from the `if ...: raise` statements of the listed public functions "
+    text="66 parameter guards are regenerated on every run from the `if ...: raise` statements of the listed public functions "
          "and their check helpers (check_alpha, check_huber_param, quantile/interval scores, _check_murphy_inputs, tw end-point "
          "checks, _check_firm_inputs, crps/brier/roc range and ordering checks, discretise, cdf precision, isotonic checks, FSS "
-         "window, Diebold-Mariano h and confidence level, risk-matrix checks) as Boolean functions of their scalar parameters; "
+         "window, Diebold-Mariano h and confidence level, risk-matrix checks; since the guard-site audit also fill_cdf's method and its "
+         "method-dependent min_nonnan (>= 2 for 'linear', >= 1 otherwise, also through add_thresholds), decreasing_cdfs tolerance, "
+         "the enumerated string options of crps_cdf / crps_cdf_brier_decomposition / crps_for_ensemble / tail_tw_crps_for_ensemble / "
+         "diebold_mariano / risk_matrix_score, the Dataset branch of brier_score, threshold counts, the warning-scaling-matrix "
+         "checks) as Boolean functions of their scalar and string parameters; "
          "kernel-checked Lean theorems state for each: guard fires <-> parameter outside the documented domain (open (0,1), "
          "> 0, >= 0, 0 < a < b < 1, lower <= upper, a < b < c < d, [0,1] and (0,1) ranges, non-decreasing thresholds, "
-         "1 <= window <= side, 0 < h < n, whole h, int >= 1), with the lift to arrays (raises iff some element offends) and "
-         "the +-inf end-point rules.  An exhaustive probe grid (about 1700 calls) drives the REAL public functions at {inside, "
+         "1 <= window <= side, 0 < h < n, whole h, int >= 1, one of the documented strings, min_nonnan >= 2 resp. 1), with the lift to arrays (raises iff some element offends) and "
+         "the +-inf end-point rules.  An exhaustive probe grid (about 2200 calls) drives the REAL public functions at {inside, "
          "just inside, on, just outside, outside} each boundary as python float/int, numpy float64/float32/int64 and arrays "
          "with one offending element at every position, and compares raise (ValueError subclass / TypeError) vs return with "
          "the translated guards (correspondence) and with the hand-written documented domains (oracle).",
     note="Trusted: Lean kernel; standard axioms; py2lean + tools/gen/Guards.py (the table naming which `if` is which guard, "
          "the substitution of sub-expressions like fcst.max() or len(diffs) by scalar parameters, stripping of existential "
-         ".any()/not .all() wrappers - universal ones are refused); the probe fixtures.  check_binary (non-binary observations) "
-         "and coords_increasing (threshold coordinates) are set/diff based and not translated: covered by probing against "
-         "the documented rule only.  Guards on dimension names, dtypes, shapes and other enumerated strings are not in the "
-         "property's list and are not modelled.  'Rejected before any result is returned' is observed (the call raises), not "
+         ".any()/not .all() wrappers - universal ones are refused); the probe fixtures.  13 guard sites are not translatable and covered by "
+         "probing against the documented rule only: check_binary and the risk-matrix observation check (set based), "
+         "coords_increasing (4 callers), cdf_values_within_bounds (fill_cdf), the functional of murphy_* (module-level list) and "
+         "isotonic_fit (list with None), operator-valued options (brier_score_for_ensemble, FSS threshold_operator), the mode of "
+         "comparative/binary_discretise (`else: raise`) and of check_dims.  tools/c20_audit.py enumerates every `if …: raise` of "
+         "the anchored files and their check helpers (153 sites: 66 translated, 13 probe-only, 74 outside the property: "
+         "dimension names, coordinates, dtypes, shapes, option combinations, data conditions - listed in notes/C20.md); its "
+         "summary line is added to the evidence notes on every run.  murphy_score lower-cases `functional` before validating "
+         "it (deliberate; murphy_thetas does not): the probe expects exactly that.  'Rejected before any result is returned' is observed (the call raises), not "
          "proved from control flow.  interval_score rejects interval_range within 2^-53 of 0 or 1 because the symmetric "
          "levels are computed in floating point first: tagged rounding-sensitive, see notes/C20.md.  NaN parameters are "
          "outside the quantifier (recorded: theorem nan_parameters).",
@@ -47,7 +58,9 @@ MANIFEST = dict(
     design="6/C20")
 RULE = ("the probe grid: every validated parameter of every listed public function x {well inside, just inside, on, just "
         "outside, well outside} each boundary x {python float, python int, numpy float64/float32/int64} and, where the "
-        "parameter may be an array, arrays with one offending element at each position; exhaustive, no sampling; "
+        "parameter may be an array, arrays with one offending element at each position; enumerated options x {every documented "
+        "spelling, wrong case, empty, undocumented}; fill_cdf / add_thresholds: every method x min_nonnan in {-1, 0, 1, 2, 3}; "
+        "exhaustive, no sampling; "
         "distinct = distinct (site, values, container); non-trivial = the call is in-domain and returns")
 
 TINY = float(np.nextafter(0.0, 1.0))
@@ -171,7 +184,7 @@ def fixtures():
 
     # FIRM string option
     for s_ in ["upper", "lower", "Upper", "", "middle"]:
-        sites.append(dict(site="firm.threshold_assignment", guards=[], pyexpect=s_ not in ("upper", "lower"),
+        sites.append(dict(site="firm.threshold_assignment", guards=[("firm_threshold_assignment", [{"str": s_}])],
                           call=(lambda s_=s_: sca.firm(f, o, 0.5, [1.0, 2.0], [1.0, 1.0], threshold_assignment="".join(list(s_)))),
                           desc={"value": s_, "container": "str"}))
 
@@ -381,6 +394,193 @@ def fixtures():
             sites.append(dict(site="weights_from_warning_scaling.assessment_weights", guards=[("risk_assessment_weights", [S(min(wv))])],
                               call=(lambda wv=wv: weights_from_warning_scaling(scaling, wv, "sev", sev, "pt", [0.1, 0.3, 0.5])),
                               desc={"weights": [S(x) for x in wv], "container": "list"}))
+    # ================================================================== added after the guard-site audit
+    # (tools/c20_audit.py, notes/C20.md): enumerated options, counts, fill_cdf's method-dependent min_nonnan, …
+    # A string parameter of a guard travels as {"str": …} inside the guard's argument list; the calls get freshly
+    # built str objects.
+    def Sx(s_):
+        return {"str": s_}
+
+    def fresh(s_):
+        return "".join(list(s_)) if isinstance(s_, str) else s_
+
+    def add(site, call, desc, guards=(), spec_guards=None, pyexpect=None, theorem=None):
+        d = dict(site=site, guards=list(guards), call=call, desc=desc)
+        if spec_guards is not None:
+            d["spec_guards"] = list(spec_guards)
+        if pyexpect is not None:
+            d["pyexpect"] = pyexpect
+        if theorem:
+            d["theorem"] = theorem
+        sites.append(d)
+
+    # fill_cdf / add_thresholds: every method x min_nonnan in {-1, 0, 1, 2, 3} (minimum 2 for "linear", 1 otherwise)
+    fc = xr.DataArray([[0.0, np.nan, 0.4, np.nan, 1.0], [np.nan, 0.2, np.nan, np.nan, np.nan], [np.nan] * 5],
+                      dims=["a", "x"], coords={"x": [0, 1, 2, 3, 4]})
+    methods = ["linear", "step", "forward", "backward"]
+    for m in methods:
+        for k in [-1, 0, 1, 2, 3]:
+            for lab, conv in (("py-int", int), ("np.int64", np.int64)):
+                g = [("fill_cdf_method", [Sx(m)]), ("fill_cdf_min_nonnan_other", [S(k), Sx(m)]),
+                     ("fill_cdf_min_nonnan_linear", [S(k), Sx(m)])]
+                add("fill_cdf.min_nonnan", (lambda m=m, k=k, conv=conv: cdf.fill_cdf(fc, "x", fresh(m), conv(k))),
+                    {"method": m, "value": S(k), "container": lab}, guards=g,
+                    spec_guards=[("fill_cdf_method", [Sx(m)]), ("fill_cdf_min_nonnan", [S(k), Sx(m)])], theorem="fill_cdf_min_nonnan_iff")
+                add("add_thresholds.min_nonnan",
+                    (lambda m=m, k=k, conv=conv: cdf.add_thresholds(fc, "x", [0.5, 2.5], fresh(m), min_nonnan=conv(k))),
+                    {"method": m, "value": S(k), "container": lab}, guards=g,
+                    spec_guards=[("add_thresholds_fill_method", [Sx(m)]), ("fill_cdf_min_nonnan", [S(k), Sx(m)])],
+                    theorem="fill_cdf_min_nonnan_iff")
+    for k in [-1, 0, 1, 2, 3]:   # no filling: min_nonnan is not used
+        add("add_thresholds.min_nonnan", (lambda k=k: cdf.add_thresholds(fc, "x", [0.5, 2.5], fresh("none"), min_nonnan=k)),
+            {"method": "none", "value": S(k), "container": "py-int"}, spec_guards=[("add_thresholds_fill_method", [Sx("none")])])
+    for m in methods + ["Linear", "", "none", "nearest", "steps"]:
+        add("fill_cdf.method", (lambda m=m: cdf.fill_cdf(fc, "x", fresh(m), 2)), {"value": m, "container": "str"},
+            guards=[("fill_cdf_method", [Sx(m)])])
+        if m != "none":
+            add("add_thresholds.fill_method", (lambda m=m: cdf.add_thresholds(fc, "x", [0.5], fresh(m), min_nonnan=2)),
+                {"value": m, "container": "str"}, guards=[("fill_cdf_method", [Sx(m)])],
+                spec_guards=[("add_thresholds_fill_method", [Sx(m)])])
+    # fill_cdf: CDF values outside [0, 1] in one element (cdf_values_within_bounds: a helper call, not translated)
+    for pos in range(8):
+        for p in probs + [float("nan")]:
+            cv = np.array([[0.0, 0.3, 0.7, 1.0], [0.1, np.nan, 0.9, 1.0]])
+            cv.flat[pos] = p
+            cx = xr.DataArray(cv, dims=["a", "threshold"], coords={"threshold": thr})
+            add("fill_cdf.cdf[values]", (lambda cx=cx: cdf.fill_cdf(cx, "threshold", "linear", 2)),
+                {"pos": pos, "value": S(p), "container": "array"},
+                spec_guards=[("cdf_values_range", [S(float(np.nanmax(cv))), S(float(np.nanmin(cv)))])])
+    # decreasing_cdfs: tolerance (check_nan_decreasing_inputs) and threshold coordinates
+    scalar("cdf_decreasing_tolerance", "nonneg", "decreasing_cdfs.tolerance", lambda v: cdf.decreasing_cdfs(cdf_f, "threshold", v))
+    coord_lists = [[0.0, 1.0, 2.0, 3.0], [0.0, 1.0, 1.0, 3.0], [0.0, 2.0, 1.0, 3.0], [3.0, 2.0, 1.0, 0.0],
+                   [0.0, 1.0, float(np.nextafter(1.0, 2.0)), 3.0]]
+    for tc in coord_lists:
+        cx = xr.DataArray([[0.0, 0.3, 0.7, 1.0], [0.1, 0.2, 0.9, 1.0]], dims=["a", "threshold"], coords={"threshold": tc})
+        bad = not all(y > x for x, y in zip(tc[:-1], tc[1:]))
+        d = {"coords": [S(x) for x in tc], "container": "coords"}
+        add("decreasing_cdfs.threshold_coords", (lambda cx=cx: cdf.decreasing_cdfs(cx, "threshold", 0.0)), d, pyexpect=bad)
+        add("crps_cdf_brier_decomposition.threshold_coords", (lambda cx=cx: sp.crps_cdf_brier_decomposition(cx, obs1)), d, pyexpect=bad)
+        wx = xr.DataArray([1.0, 1.0, 0.5, 1.0], dims=["threshold"], coords={"threshold": tc})
+        add("crps_cdf.threshold_weight_coords", (lambda wx=wx: sp.crps_cdf(cdf_f, obs1, threshold_weight=wx)), d, pyexpect=bad)
+    # crps_cdf: enumerated options and the number of thresholds
+    w_ok = xr.DataArray([1.0, 1.0, 0.5, 1.0], dims=["threshold"], coords={"threshold": thr})
+    for m in methods + ["Linear", "", "none", "nearest"]:
+        add("crps_cdf.fcst_fill_method", (lambda m=m: sp.crps_cdf(cdf_f, obs1, fcst_fill_method=fresh(m))),
+            {"value": m, "container": "str"}, guards=[("crps_cdf_fcst_fill_method", [Sx(m)])])
+        add("crps_cdf.threshold_weight_fill_method",
+            (lambda m=m: sp.crps_cdf(cdf_f, obs1, threshold_weight=w_ok, threshold_weight_fill_method=fresh(m))),
+            {"value": m, "weight": True, "container": "str"}, guards=[("crps_cdf_weight_fill_method", ["1", Sx(m)])])
+        add("crps_cdf_brier_decomposition.fcst_fill_method",
+            (lambda m=m: sp.crps_cdf_brier_decomposition(cdf_f, obs1, fcst_fill_method=fresh(m))),
+            {"value": m, "container": "str"}, guards=[("crps_cdf_brier_fcst_fill_method", [Sx(m)])])
+    for m in ["exact", "trapz", "Exact", "", "simpson"]:
+        add("crps_cdf.integration_method", (lambda m=m: sp.crps_cdf(cdf_f, obs1, integration_method=fresh(m))),
+            {"value": m, "container": "str"}, guards=[("crps_cdf_integration_method", [Sx(m)])])
+    for n_thr in [1, 2, 3]:
+        cx = xr.DataArray(np.array([[0.2, 0.6, 1.0], [0.1, 0.5, 0.9]])[:, :n_thr], dims=["a", "threshold"],
+                          coords={"threshold": [0.0, 1.0, 2.0][:n_thr]})
+        add("crps_cdf.fcst[threshold count]", (lambda cx=cx: sp.crps_cdf(cx, obs1)), {"value": S(n_thr), "container": "shape"},
+            guards=[("crps_cdf_threshold_count", [S(n_thr)])])
+    # ensemble CRPS: method / tail
+    for m in ["ecdf", "fair", "ECDF", "", "unfair"]:
+        g = [("crps_ensemble_method", [Sx(m)])]
+        add("crps_for_ensemble.method", (lambda m=m: sp.crps_for_ensemble(ens, obs1, "member", method=fresh(m))),
+            {"value": m, "container": "str"}, guards=g)
+        add("tail_tw_crps_for_ensemble.method", (lambda m=m: sp.tail_tw_crps_for_ensemble(ens, obs1, "member", 1.0, method=fresh(m))),
+            {"value": m, "container": "str"}, guards=g)
+        add("interval_tw_crps_for_ensemble.method",
+            (lambda m=m: sp.interval_tw_crps_for_ensemble(ens, obs1, "member", 0.0, 1.0, method=fresh(m))),
+            {"value": m, "container": "str"}, guards=g)
+    for m in ["upper", "lower", "Upper", "", "both"]:
+        add("tail_tw_crps_for_ensemble.tail", (lambda m=m: sp.tail_tw_crps_for_ensemble(ens, obs1, "member", 1.0, tail=fresh(m))),
+            {"value": m, "container": "str"}, guards=[("tail_tw_crps_tail", [Sx(m)])])
+    # brier_score with a Dataset forecast: its own range guard
+    for pos in range(4):
+        for p in probs:
+            pv = np.array([0.1, 0.5, 0.9, 0.3])
+            pv[pos] = p
+            ds = xr.Dataset({"u": pf, "v": xr.DataArray(pv, dims=["t"])})
+            add("brier_score.fcst[Dataset]", (lambda ds=ds: sp.brier_score(ds, bo)), {"pos": pos, "value": S(p), "container": "dataset"},
+                guards=[("brier_fcst_range_dataset", [S(float(max(pv.max(), 0.9))), S(float(min(pv.min(), 0.1)))])])
+    # Diebold-Mariano options
+    for m in ["HG", "HLN", "hg", "", "DM"]:
+        add("diebold_mariano.method", (lambda m=m: diebold_mariano(dm_series([1, 2]), "lead", "h", method=fresh(m))),
+            {"value": m, "container": "str"}, guards=[("dm_method", [Sx(m)])])
+    for m in ["normal", "t", "T", "", "chi2"]:
+        add("diebold_mariano.statistic_distribution",
+            (lambda m=m: diebold_mariano(dm_series([1, 2]), "lead", "h", statistic_distribution=fresh(m))),
+            {"value": m, "container": "str"}, guards=[("dm_statistic_distribution", [Sx(m)])])
+    # risk matrix: threshold_assignment, non-binary observations, warning scaling matrix
+    for m in ["upper", "lower", "Upper", "", "middle"]:
+        add("risk_matrix_score.threshold_assignment",
+            (lambda m=m: risk_matrix_score(rf, ro, dw([0.1, 0.5]), "sev", "pt", threshold_assignment=fresh(m))),
+            {"value": m, "container": "str"}, guards=[("risk_threshold_assignment", [Sx(m)])])
+    for pos in range(6):
+        for v in [0.0, 1.0, float("nan"), 0.5, 2.0, -1.0, TINY, BELOW1]:
+            ov = np.array([[1.0, 0.0, 0.0], [1.0, 1.0, 0.0]])
+            ov.flat[pos] = v
+            ox = xr.DataArray(ov, dims=["t", "sev"], coords={"sev": sev})
+            add("risk_matrix_score.obs[binary]", (lambda ox=ox: risk_matrix_score(rf, ox, dw([0.1, 0.5]), "sev", "pt")),
+                {"pos": pos, "value": S(v), "container": "array"}, pyexpect=not (math.isnan(v) or v in (0.0, 1.0)))
+    mats = {"base": [[0, 2, 3, 3], [0, 1, 2, 3], [0, 1, 1, 2], [0, 0, 0, 0]],
+            "flat": [[0, 1, 1, 1], [0, 1, 1, 1], [0, 1, 1, 1], [0, 0, 0, 0]],
+            "negative entry": [[0, 2, 3, 3], [0, 1, 2, 3], [0, -1, 1, 2], [0, 0, 0, 0]],
+            "row decreases": [[0, 2, 3, 3], [0, 2, 1, 3], [0, 1, 1, 2], [0, 0, 0, 0]],
+            "column increases": [[0, 1, 3, 3], [0, 2, 2, 3], [0, 1, 1, 2], [0, 0, 0, 0]],
+            "all zero": [[0, 0, 0, 0]] * 4}
+    for lab, mat in mats.items():
+        for aw in ([1, 2], [1, 2, 3], [1, 2, 3, 4]):
+            mx = np.array(mat)
+            g = [("risk_scaling_min", [S(int(mx.min()))]), ("risk_scaling_rows", [S(int(np.diff(mx, axis=1).min()))]),
+                 ("risk_scaling_columns", [S(int(np.diff(mx, axis=0).max()))]),
+                 ("risk_assessment_weights_count", [S(len(aw)), S(int(mx.max()))])]
+            add("weights_from_warning_scaling.scaling_matrix",
+                (lambda mx=mx, aw=aw: weights_from_warning_scaling(mx, aw, "sev", sev, "pt", [0.1, 0.3, 0.5])),
+                {"matrix": lab, "n_weights": len(aw), "container": "matrix"}, guards=g)
+    # FIRM: at least one category threshold
+    for n_thr in [0, 1, 2]:
+        add("firm.categorical_thresholds[count]",
+            (lambda n_thr=n_thr: sca.firm(f, o, 0.5, [1.0, 2.0][:n_thr], [1.0, 1.0][:n_thr])),
+            {"value": S(n_thr), "container": "list"}, guards=[("firm_threshold_count", [S(n_thr)])])
+    # enumerated options whose guard the translator cannot take (module-level list, list with None, function objects,
+    # `else: raise` at the end of an elif chain, dict of modes): probed against the documented list
+    import operator
+    for m in ["quantile", "huber", "expectile", "Quantile", "", "mean"]:
+        bad = m not in ("quantile", "huber", "expectile")
+        # murphy_score lower-cases `functional` on purpose before validating it (murphy_thetas does not): notes/C20.md
+        add("murphy_score.functional", (lambda m=m: sc.murphy_score(f, o, [1.0, 2.0], functional=fresh(m), alpha=0.5, huber_a=1.0)),
+            {"value": m, "container": "str"}, pyexpect=m.lower() not in ("quantile", "huber", "expectile"))
+        add("murphy_thetas.functional", (lambda m=m: sc.murphy_thetas([f], o, fresh(m), huber_a=1.0)),
+            {"value": m, "container": "str"}, pyexpect=bad)
+    for m in ["mean", "quantile", None, "Mean", "", "median"]:
+        add("isotonic_fit.functional",
+            (lambda m=m: sc.isotonic_fit(iso_f, iso_o, functional=fresh(m), quantile_level=0.5, solver=(np.mean if m is None else None))),
+            {"value": str(m), "container": "str"}, pyexpect=m not in ("mean", "quantile", None))
+    for nm, op in [("ge", operator.ge), ("gt", operator.gt), ("le", operator.le), ("lt", operator.lt), ("eq", operator.eq),
+                   ("ne", operator.ne), ("add", operator.add), ("np.greater", np.greater)]:
+        add("brier_score_for_ensemble.event_threshold_operator",
+            (lambda op=op: sp.brier_score_for_ensemble(ens, obs1, "member", 2.0, event_threshold_operator=op)),
+            {"value": nm, "container": "operator"}, pyexpect=nm not in ("ge", "gt", "le", "lt"))
+    for m in [">=", ">", "<=", "<", "==", "!=", "=>", "", "ge", "=", operator.ge, operator.gt, operator.le, operator.lt,
+              operator.eq, operator.ne, operator.add, max]:
+        ok = m in (">=", ">", "<=", "<", "==", "!=") if isinstance(m, str) else \
+            any(m is x for x in (operator.ge, operator.gt, operator.le, operator.lt, operator.eq, operator.ne))
+        d = {"value": m if isinstance(m, str) else "operator." + m.__name__, "container": "str" if isinstance(m, str) else "operator"}
+        add("comparative_discretise.mode", (lambda m=m: spr.comparative_discretise(f, 1.0, fresh(m))), d, pyexpect=not ok)
+        add("binary_discretise.mode", (lambda m=m: spr.binary_discretise(f, [1.0, 2.0], fresh(m))), d, pyexpect=not ok)
+    import scores.utils as su
+    dims_for = {"equal": ["a", "b"], "subset": ["a", "b", "c"], "superset": ["a"], "proper subset": ["a", "b", "c"],
+                "proper superset": ["a"], "disjoint": ["c"], None: ["a", "b"], "Equal": ["a", "b"], "": ["a", "b"], "same": ["a", "b"],
+                "strict subset": ["a", "b", "c"]}
+    for m, dd in dims_for.items():
+        add("check_dims.mode", (lambda m=m, dd=dd: su.check_dims(f, dd, mode=fresh(m))), {"value": str(m), "container": "str"},
+            pyexpect=m in ("Equal", "", "same", "strict subset"))
+    for nm, op in [("np.greater", np.greater), ("np.greater_equal", np.greater_equal), ("np.less", np.less),
+                   ("np.less_equal", np.less_equal), ("None", None), ("np.equal", np.equal), ("operator.gt", operator.gt),
+                   ("np.add", np.add)]:
+        add("fss_2d_single_field.threshold_operator",
+            (lambda op=op: fss_2d_single_field(fld_f, fld_o, event_threshold=0.5, window_size=(2, 2), threshold_operator=op)),
+            {"value": nm, "container": "operator"}, pyexpect=nm in ("np.equal", "operator.gt", "np.add"))
     return sites
 
 
@@ -404,16 +604,27 @@ def has_special(args):
     return any(a in ("inf", "-inf", "nan") for a in args if a is not None)
 
 
+def guards_of(s, spec):
+    """the guards of a site: translated ones for the model; for the oracle the documented domains, which are keyed like
+    the guards unless the site names them separately (`spec_guards`: several guards share ONE documented rule, or the
+    guard is not translated at all)"""
+    return s.get("spec_guards", s["guards"]) if spec else s["guards"]
+
+
 def decide(sites, spec):
     """expected 'rejects' / 'returns' per site from the Lean guard table (model) or the documented domains (spec);
     None when the oracle has no opinion (infinite end points are decided by the model only)"""
     ops, spans = [], []
     for s in sites:
         mine = []
-        for g, args in s["guards"]:
+        for g, args in guards_of(s, spec):
             if spec and (g == "tw_trap_inf_rule" or has_special(args)):
                 continue
-            mine.append({"op": "c20.domain" if spec else "c20.guard", "args": {"name": g, "args": args}})
+            a = {"name": g, "args": [x for x in args if not isinstance(x, dict)]}
+            strs = [x["str"] for x in args if isinstance(x, dict)]   # string parameters (enumerated options)
+            if strs:
+                a["strs"] = strs
+            mine.append({"op": "c20.domain" if spec else "c20.guard", "args": a})
         spans.append((len(ops), len(ops) + len(mine)))
         ops += mine
     outs = run(ops, spec)
@@ -429,10 +640,10 @@ def decide(sites, spec):
         if any(isinstance(v, dict) for v in vals):
             raise RuntimeError(f"driver: {vals}")
         if spec:
-            n_skipped = len(s["guards"]) - (b - a)
+            n_skipped = len(guards_of(s, True)) - (b - a)
             if any(v is False for v in vals):
                 res.append("rejects")
-            elif n_skipped and any(has_special(args) for _, args in s["guards"]):
+            elif n_skipped and any(has_special(args) for _, args in guards_of(s, True)):
                 res.append(None)
             else:
                 res.append("returns")
@@ -467,7 +678,10 @@ def probe_all():
 
 
 def case_of(s):
-    return {"site": s["site"], "guards": [[g, a] for g, a in s["guards"]], **s["desc"]}
+    c = {"site": s["site"], "guards": [[g, a] for g, a in s["guards"]], **s["desc"]}
+    if "spec_guards" in s:
+        c["documented"] = [[g, a] for g, a in s["spec_guards"]]
+    return c
 
 
 def compare(ctx, batch, kind, sites, expected):
@@ -488,7 +702,7 @@ def compare(ctx, batch, kind, sites, expected):
                   "rejected-in-domain" if exp == "returns" and s["observed"] == "rejects" else "wrong-exception-class"
             ctx.fail(batch, kind, s["site"], sig, c, observed=s["observed"], expected=exp,
                      tags={"site": s["site"], "container": s["desc"].get("container")},
-                     theorem=(s["guards"][0][0] + "_iff") if s["guards"] else None)
+                     theorem=s.get("theorem") or ((s["guards"][0][0] + "_iff") if s["guards"] else None))
 
 
 def correspondence(ctx):
@@ -502,6 +716,11 @@ def correspondence(ctx):
     missing = sorted(set(names) - used)
     if missing:
         ctx.notes.append(f"translated guards without a probe: {missing}")
+    try:   # coverage audit of the guard sites of the current tree (information; a new guard site is not a violation)
+        import c20_audit
+        ctx.notes.append("guard-site audit: " + c20_audit.summary(c20_audit.audit()))
+    except Exception as ex:  # noqa: BLE001
+        ctx.notes.append(f"guard-site audit not available: {type(ex).__name__}: {ex}")
     excs = core.run_driver("C20", [{"op": "c20.exceptions", "args": {}}])[0]
     bad = {k: v for k, v in excs.items() if v not in ("ValueError", "DimensionError", "TypeError")}
     ctx.case("exception-classes", {"classes": sorted(set(excs.values()))})
